@@ -83,12 +83,14 @@ ItemAfter(kind, h) ==
       [] kind = "FolderRestoreReq" -> {h, "RESTORING", "GOOD"}
       [] OTHER -> {h}
 
-HealthInit(fd, sd, rd, nd, a0, v0, fh0, fv0, fov0) ==
+\* (inst: the item is followed from the middle of its installation - an application installed during the run)
+HealthInitI(fd, sd, rd, nd, a0, v0, fh0, fv0, fov0, inst) ==
     /\ fixDur = fd /\ scanDur = sd /\ restDur = rd /\ nodeDur = nd
     /\ on = TRUE
-    /\ swA = a0 /\ swV = v0 /\ fixAge = -1 /\ installing = FALSE
+    /\ swA = a0 /\ swV = v0 /\ fixAge = -1 /\ installing = inst
     /\ fH = fh0 /\ fV = fv0 /\ foV = fov0 /\ scanAge = -1 /\ restAge = -1
     /\ osAge = -1 /\ inTick = FALSE /\ act = "Init"
+HealthInit(fd, sd, rd, nd, a0, v0, fh0, fv0, fov0) == HealthInitI(fd, sd, rd, nd, a0, v0, fh0, fv0, fov0, FALSE)
 
 \* a change of the software's true health ends / starts the fix clock
 FixClock(a2, isFix) == IF a2 # "FIXING" THEN -1 ELSE IF isFix THEN 0 ELSE fixAge
